@@ -294,6 +294,8 @@ def oracle(seed, tier):
             for i in range(n):
                 ok, wit, what, sig = e2e_case(rng, front, dest, tmpdir)
                 res.evaluations += 1
+                if res.enough():
+                    break
                 res.hit('%s/%s' % (front, dest))
                 faults = sum(1 for v in wit['fault_plan'].values() for s in v if 'retryable-fault' in s)
                 if faults:
@@ -323,6 +325,8 @@ def progress_oracle(seed, tier):
         kind = 'queue' if i % 2 == 0 else 'immediate'
         impl = run_real(kind, io_chunk, start, length, mx, atts)
         res.evaluations += 1
+        if res.enough():
+            break
         log, outcome = impl.split(' => ')
         amounts = [int(x[1:]) for x in log.split() if x.startswith('p')]
         wit = {'task': kind, 'io_chunksize': io_chunk, 'range_start': start, 'range_len': length, 'max_attempts': mx,
